@@ -4,7 +4,7 @@ Deductive (ropes of literals and opaque atoms, contracts/ropes.py):
   * the real Filter.parse_topics / Filter.parse_options are the inverse of rendering: parse(render(x)) == x for lists of 0..3 entries;
   * the real Filter.normalize_config (base filter): normalising the result again returns an equal configuration, and the comma-text form
     normalises to the same result as the list form.
-  * the real normalize_config of VideoIn, ImageIn, VideoOut, ImageOut and Recorder (calling the real base one and the real parsers): idempotent; text == list == records.
+  * the real normalize_config of VideoIn, ImageIn, VideoOut, ImageOut, Recorder, Util (parameterless transforms) and Webvis (calling the real base one and the real parsers): idempotent; text == list == records.
 Bounded (labelled, never counted as proved): the ten filter classes natively on configurations generated from their documented grammar.
 """
 import ast, itertools
@@ -26,10 +26,10 @@ TRUSTED = ['PyVC executor (DESIGN 2.3), z3 5.1.0 / cvc5 (string/regex queries of
            'json_getval(render(v)) == v for JSON values and json_getval(s) == s for text that is not JSON (T4)', 'MQ.LOG_MAP is read from the real class']
 ASSUMPTIONS = ['atoms (topic names, option names, addresses, values) contain no separator characters of the configuration grammar and no edge whitespace; option names match [a-zA-Z_]\\w*',
                'list lengths 0..3 for topic mappings / options / sources (entries symbolic)',
-               'decided deductively: the two parsers, the base Filter class, VideoIn, ImageIn, VideoOut, ImageOut (1..2 entries with topic / flag / no-flag / name=json options, text vs list of strings vs list of records), Recorder (output options, 0..2 rules) and Util (0..2 parameterless transforms with topic lists, log); Util size/box transforms, MQTTOut, REST, Webvis are covered by the bounded native check only (labelled bounded)',
+               'decided deductively: the two parsers, the base Filter class, VideoIn, ImageIn, VideoOut, ImageOut (1..2 entries with topic / flag / no-flag / name=json options, text vs list of strings vs list of records), Recorder (output options, 0..2 rules), Util (0..2 parameterless transforms with topic lists, log) and Webvis (convenience output http://host[:port][/] in text and list form, host an opaque atom, port a symbolic integer, class defaults read from the real WebvisConfig, FILTER_ENABLE_JSON / FILTER_SLEEP_INTERVAL unset: os.getenv returns its default); Util size/box transforms, MQTTOut, REST are covered by the bounded native check only (labelled bounded)',
                'endpoint units: is_video_* / is_file / parse_segtime / dict_without / once by assumed contracts; configuration classes (adict subclasses) are records tagged with their class',
                'REST endpoint paths starting with "//" are outside the documented grammar (stripping one leading "/" per pass is not idempotent there)']
-UNDECIDED_CLAUSES = ['idempotence and text==structured form of MQTTOut, REST, Webvis and of the size/box transforms of Util: bounded native check only; unknown-option handling of VideoOut (moved to params) / ImageOut (dropped) is not in the shapes']
+UNDECIDED_CLAUSES = ['idempotence and text==structured form of MQTTOut, REST and of the size/box transforms of Util: bounded native check only; Webvis with its FILTER_* environment overrides set is not in the shapes; unknown-option handling of VideoOut (moved to params) / ImageOut (dropped) is not in the shapes']
 EXPLANATION = 'Real parsers and the real base normalize_config executed on rope-shaped inputs; results compared structurally with symbolic atoms.'
 
 
@@ -794,6 +794,107 @@ class UtilNormalizeUnit(Unit):
         return native_bounded(classes=('Util',))
 
 
+class CfgClsD(CfgCls):
+    """a configuration class with class-level defaults (read from the real ClassDef): an attribute that is not an item falls back on the class attribute (utils.adict.__getattribute__)"""
+    @staticmethod
+    def op_call(ex, o, *a, **kw):
+        r = CfgCls.op_call(ex, o, *a, **kw)
+        r.f['_defaults'] = o.f['defaults']
+        return r
+
+
+class AdictD(AdictModel):
+    @staticmethod
+    def getattr(ex, o, name):
+        if name.startswith('__'):
+            return NOTHANDLED
+        if name in o.f['kv']:
+            return o.f['kv'][name]
+        return (o.f.get('_defaults') or {}).get(name)
+
+
+class WebvisNormalizeUnit(Unit):
+    """the real Webvis.normalize_config (base normalize_config through it): idempotent; text form == list form of the convenience output; host / port derived from it"""
+    name = 'Webvis.normalize_config: idempotence, text == structured, host/port normal form'
+    RELP = FDIR + 'webvis.py'
+    targets = (f'{FDIR}webvis.py::Webvis.normalize_config',)
+    required_covers = ('normalised twice',)
+    bounded = {'outputs': 'absent | http://<host> | http://<host>:<port> | http://<host>:<port>/ | http://:<port> (host an opaque atom, port a symbolic integer)', 'environment': 'FILTER_ENABLE_JSON / FILTER_SLEEP_INTERVAL unset'}
+    mutants = (
+        ('Webvis: outputs kept after the host/port were derived', f'{FDIR}webvis.py::Webvis.normalize_config', 'del config.outputs', 'pass', 'C11.'),
+        ('Webvis: host taken with the port', f'{FDIR}webvis.py::Webvis.normalize_config', "host, *port = addr.rsplit(':', 1)", "host, *port = addr, *addr.rsplit(':', 1)[1:]", 'C11.normal_form'),
+    )
+
+    def shapes(self, tier):
+        return [(o, ws) for o in ('absent', 'host', 'hostport', 'hostportslash', 'port') for ws in (False, True)]
+
+    def build(self, ex, shape, form):
+        o, ws = shape
+        host, port = Atom('wv_host', 'host'), Atom('wv_port', 'digits', z3.Int('wv_port'))
+        kv = {'id': rope(Atom('the_id', 'name')), 'sources': [rope(Atom('src_addr', 'addr'))]}
+        if o != 'absent':
+            t = {'host': rope('http://', host), 'hostport': rope('http://', host, ':', port), 'hostportslash': rope('http://', host, ':', port, '/'), 'port': rope('http://:', port)}[o]
+            kv['outputs'] = (rope(' ', t, ' ') if ws else t) if form == 'text' else [t]
+        r = adict(**kv)
+        r.f['_kind'] = 'dict'
+        return r
+
+    def run(self, shape, dec):
+        rel = self.RELP
+        ex = new_exec(dec, [FILTER, UTILS, rel])
+        setup(ex)
+        register_class(ex, rel, 'Webvis', bases=('Filter',))
+        ex.models['cfgcls'] = CfgCls
+        ex.models['cfgclsd'] = CfgClsD
+        ex.models['adict'] = AdictD
+        ex.isinstance_hook = cfg_isinstance
+        wmod = extract.load(rel)
+        defaults = {st.target.id: ast.literal_eval(st.value) for st in wmod.find('WebvisConfig').body if isinstance(st, ast.AnnAssign) and st.value is not None}
+        anc = {'WebvisConfig': ('FilterConfig',)}
+        cfg_cls = Obj('cfgclsd', kind='WebvisConfig', nested={}, ancestors_of=anc, defaults=defaults)
+        fc_cls = Obj('cfgcls', kind='FilterConfig', nested={}, ancestors_of=anc)
+        mq_mod = extract.load('openfilter/filter_runtime/mq.py')
+        log_map = eval(compile(ast.Expression(mq_mod.find('MQ.<assign LOG_MAP>')), '<LOG_MAP>', 'eval'))
+
+        def dict_without(ex_, d, without):
+            w = {without} if isinstance(without, str) else set(without)
+            r = adict(**{k: v for k, v in d.f['kv'].items() if k not in w})
+            r.f['_kind'] = d.f.get('_kind')
+            if '_defaults' in d.f:
+                r.f['_defaults'] = d.f['_defaults']
+            return r
+        ex.models['osmod'] = type('OsMod', (), {'m_getenv': staticmethod(lambda ex_, o, k, d=None: d)})
+        for g in ex.modules.values():
+            g.update(FilterConfig=fc_cls, WebvisConfig=cfg_cls, split_commas_maybe=closure(UTILS, 'split_commas_maybe'), MQ=Obj('MQcls', LOG_MAP=log_map), Filter=ClassRef('Filter'),
+                     dict_without=Native(dict_without, 'dict_without'), logger=None, os=Obj('osmod'))
+        norm = lambda c: ex.call_value(ex.getattr(ClassRef('Webvis'), 'normalize_config'), [c], {})
+        ex.replay_info = dict(shape=list(shape), cls='Webvis')
+        try:
+            n1 = norm(self.build(ex, shape, 'text'))
+            n2 = norm(n1)
+            ns = norm(self.build(ex, shape, 'struct'))
+        except ExcSig as e:
+            ex.outcome = f'raise {e.cls}'
+            ex.oblige(f'C11.no_failure: Webvis.normalize_config rejects a valid configuration ({e.origin})', False)
+            return ex
+        ex.outcome = 'return'
+        ex.cover('normalised twice')
+        ex.oblige('C11.idempotent(Webvis): normalising an already normalised configuration returns an equal configuration', zb(ex.eq(n2, n1)))
+        ex.oblige('C11.text_equals_struct(Webvis): the text form of the convenience output normalises to the same result as the list form', zb(ex.eq(n1, ns)))
+        kv = n1.f['kv']
+        o = shape[0]
+        want_host = o in ('host', 'hostport', 'hostportslash')
+        want_port = o in ('hostport', 'hostportslash', 'port')
+        ok_host = zb(ex.eq(kv.get('host'), rope(Atom('wv_host', 'host')))) if want_host else ('host' not in kv)
+        ok_port = zb(ex.eq(kv.get('port'), z3.Int('wv_port'))) if want_port else ('port' not in kv)
+        ex.oblige('C11.normal_form(Webvis): the convenience output is consumed: no outputs item is left and host / port are exactly the two sides of the last colon',
+                  z3.And(zb('outputs' not in kv), zb(ok_host), zb(ok_port)))
+        return ex
+
+    def replay(self, failure):
+        return native_bounded(classes=('Webvis',))
+
+
 def _mk_fc(ex, d):
     if isinstance(d, Obj) and d.cls == 'adict':
         d = d.f['kv']
@@ -919,4 +1020,4 @@ def extra_checks(tier, seed, pool):
     return out
 
 
-UNITS = [ParserInverseUnit(), BaseNormalizeUnit()] + [EndpointNormalizeUnit(c) for c in ('VideoIn', 'ImageIn', 'VideoOut', 'ImageOut')] + [RecorderNormalizeUnit(), UtilNormalizeUnit()]
+UNITS = [ParserInverseUnit(), BaseNormalizeUnit()] + [EndpointNormalizeUnit(c) for c in ('VideoIn', 'ImageIn', 'VideoOut', 'ImageOut')] + [RecorderNormalizeUnit(), UtilNormalizeUnit(), WebvisNormalizeUnit()]
